@@ -193,6 +193,24 @@ def KM.has (g : KM) (k : Nat) : Bool := g.table.any (fun p => p.1 == k)
 def KM.put (checked : Bool) (g : KM) (k : Nat) : KM :=
   if checked && g.has k then g else ⟨(k, g.next) :: g.table, g.next + 1⟩
 
+/-- the id registered for a kind (first entry; entries are unique per kind on consistent tables) -/
+def KM.idOf (g : KM) : Nat → Nat := fun k =>
+  match g.table.find? (fun p => p.1 == k) with
+  | some p => p.2
+  | none => 0
+
+/-- LIVE `AssertKinds` (after hooks/C05-fix2.patch): `ids[i] = Put(kinds[i])`, position-wise -/
+def KM.assertKinds (g : KM) : List Nat → KM × List Nat
+  | [] => (g, [])
+  | k :: t => (((g.put true k).assertKinds t).1, (g.put true k).idOf k :: ((g.put true k).assertKinds t).2)
+
+/-- OLD `AssertKinds`: the ids of the kinds FOUND by `mapKinds` first, then the ids of the kinds it had to register -/
+def KM.assertKinds_old (g : KM) (ks : List Nat) : KM × List Nat :=
+  let found := ks.filter (fun k => g.has k)
+  let missing := ks.filter (fun k => !g.has k)
+  let g' := missing.foldl (KM.put true) g
+  (g', found.map g.idOf ++ missing.map g'.idOf)
+
 /-- program counter of one goroutine running AssertKinds(ks) -/
 inductive KMPC where
   | start (ks : List Nat)
